@@ -186,6 +186,8 @@ def make_harness(with_operator, canary=False):
             eng_.exec_block(stmt.orelse, env)
 
         eng.loop_rules["product"] = product_rule
+        from pyvc.models import numeric_probe_namespace
+        eng.globals.setdefault("np", numeric_probe_namespace(eng))
         clo = Closure(node, Env(None, {}), "product_by_order")
         index = STup([SI(inp["s"]), SI(inp["e"])], inp["n"])
         kwargs = {"hermitian": SB(inp["herm"])}
